@@ -395,3 +395,84 @@ func VxC04RedeployAfterRevert() {
 		vx.Assert(e1 == nil && gv.Equal(&want), "redeployed-contract-reads-only-what-the-replacement-block-wrote")
 	}
 }
+
+// C04-H2e (new backend): a block that touches SEVERAL contracts in the same section - two class
+// replacements, two nonce updates, storage writes in two contracts - is undone contract by contract: each
+// gets back ITS OWN previous class / nonce / value (the reverse diff is built in loops over maps; a value
+// shared between iterations restores one contract's old value into all of them).
+func VxC04RevertRestoresEveryContractsOwnValues() {
+	vx.Bound("new backend; block 0 deploys contracts A and B with different symbolic classes, nonces and one storage slot each; block 1 replaces the class of both, sets the nonce of both and overwrites the slot of both (each section present or absent; values symbolic); reverse diff inspected; revert; database image and head reads compared with the state before block 1")
+	vx.CollisionFree()
+	d := memory.New()
+	sdb := NewStateDB(d, triedb.New(d, nil))
+	a1 := felt.NewFromUint64[felt.Felt](0x1000)
+	a2 := felt.NewFromUint64[felt.Felt](0x2000)
+	slot := felt.NewFromUint64[felt.Felt](0x20)
+	cA, cB := vxFeltIn("classA"), vxFeltIn("classB")
+	nA, nB := vxFeltIn("nonceA"), vxFeltIn("nonceB")
+	vA, vB := vxFeltIn("valA"), vxFeltIn("valB")
+	vx.Assume(!cA.IsZero() && !cB.IsZero() && !cA.Equal(cB) && !nA.Equal(nB) && !vA.IsZero() && !vB.IsZero() && !vA.Equal(vB))
+	diff0 := core.EmptyStateDiff()
+	diff0.DeployedContracts[*a1], diff0.DeployedContracts[*a2] = cA, cB
+	diff0.Nonces[*a1], diff0.Nonces[*a2] = nA, nB
+	diff0.StorageDiffs[*a1] = map[felt.Felt]*felt.Felt{*slot: vA}
+	diff0.StorageDiffs[*a2] = map[felt.Felt]*felt.Felt{*slot: vB}
+	r0, err := vxApply(sdb, d, &felt.Zero, 0, &diff0)
+	vx.Assert(err == nil, "block-0-stores")
+	before := vxImage(d)
+
+	diff1 := core.EmptyStateDiff()
+	if vx.Bool("replacesBothClasses") {
+		diff1.ReplacedClasses[*a1], diff1.ReplacedClasses[*a2] = vxFeltIn("b1.classA"), vxFeltIn("b1.classB")
+		vx.Cover("two-classes-replaced-in-one-block")
+	}
+	if vx.Bool("setsBothNonces") {
+		diff1.Nonces[*a1], diff1.Nonces[*a2] = vxFeltIn("b1.nonceA"), vxFeltIn("b1.nonceB")
+		vx.Cover("two-nonces-set-in-one-block")
+	}
+	if vx.Bool("writesBothSlots") {
+		diff1.StorageDiffs[*a1] = map[felt.Felt]*felt.Felt{*slot: vxFeltIn("b1.valA")}
+		diff1.StorageDiffs[*a2] = map[felt.Felt]*felt.Felt{*slot: vxFeltIn("b1.valB")}
+		vx.Cover("two-contracts-written-in-one-block")
+	}
+	r1, err := vxApply(sdb, d, &r0, 1, &diff1)
+	vx.Assert(err == nil, "block-1-stores")
+	if err != nil {
+		return
+	}
+	// the reverse diff the node reports for block 1 names each contract's own previous values
+	sr1, err := NewStateReader(&r1, sdb)
+	vx.Assert(err == nil, "reader-opens")
+	rev, err := sr1.GetReverseStateDiff(1, &diff1)
+	vx.Assert(err == nil, "reverse-diff-computable")
+	if err == nil {
+		if len(diff1.ReplacedClasses) > 0 {
+			vx.Assert(rev.ReplacedClasses[*a1].Equal(cA) && rev.ReplacedClasses[*a2].Equal(cB), "reverse-diff-names-each-contracts-own-previous-class")
+		}
+		if len(diff1.Nonces) > 0 {
+			vx.Assert(rev.Nonces[*a1].Equal(nA) && rev.Nonces[*a2].Equal(nB), "reverse-diff-names-each-contracts-own-previous-nonce")
+		}
+		if len(diff1.StorageDiffs) > 0 {
+			vx.Assert(rev.StorageDiffs[*a1][*slot].Equal(vA) && rev.StorageDiffs[*a2][*slot].Equal(vB), "reverse-diff-names-each-contracts-own-previous-value")
+		}
+	}
+	batch := d.NewBatch()
+	st, err := New(&r1, sdb, batch)
+	vx.Assert(err == nil, "state-opens")
+	rerr := st.Revert(&core.Header{Number: 1}, &core.StateUpdate{OldRoot: &r0, NewRoot: &r1, StateDiff: &diff1})
+	vx.Assert(rerr == nil, "revert-succeeds-for-every-storable-block")
+	if rerr != nil {
+		return
+	}
+	vx.Assert(batch.Write() == nil, "commit")
+	vxCompareImages(before, vxImage(d))
+	sr, err := NewStateReader(&r0, sdb)
+	vx.Assert(err == nil, "reader-opens-at-old-root")
+	if err == nil {
+		gcA, e1 := sr.ContractClassHash(a1)
+		gcB, e2 := sr.ContractClassHash(a2)
+		gnA, e3 := sr.ContractNonce(a1)
+		gnB, e4 := sr.ContractNonce(a2)
+		vx.Assert(e1 == nil && e2 == nil && e3 == nil && e4 == nil && gcA.Equal(cA) && gcB.Equal(cB) && gnA.Equal(nA) && gnB.Equal(nB), "head-state-restored")
+	}
+}
